@@ -343,16 +343,31 @@ example :
     header, after an init, or inside the parentheses before/after the value, any blanks/comments — after
     the BLOCK branch of `OmegaRecord.update` with new fixedness `b` the reader's `_block_flags` reports `b`
     (when no `(v)xn` node has to be split). -/
-theorem omega_block_fix_reads_back (r : List DNode) (vals : List OParam) (f b : Bool)
-    (h : blockFix r = .ok f) (hb : hasBlock r = true) (hn : noSplitB r vals = true) :
-    ∃ r', updBlock r vals b = .ok r' ∧ blockFix r' = .ok b := by
-  obtain ⟨h1, h2, h3⟩ := updBlockVals_flags r vals hn
-  refine ⟨setBlockFix f (updBlockVals r vals) b, by simp [updBlock, h], ?_⟩
+theorem omega_block_fix_reads_back (r : List DNode) (ws : List String) (news : List OParam) (olds : List Val)
+    (f b : Bool) (h : blockFix r = .ok f) (hb : hasBlock r = true)
+    (hn : noSplitB r (blockArray r ws news olds) = true) :
+    ∃ r', updBlock r ws news olds b = .ok r' ∧ blockFix r' = .ok b := by
+  obtain ⟨h1, h2, h3⟩ := updBlockVals_flags r _ hn
+  refine ⟨setBlockFix f (updBlockVals r (blockArray r ws news olds)) b, by simp [updBlock, h], ?_⟩
   apply setBlockFix_reads_back
   · unfold blockFix at h ⊢
     rw [h1, h3]
     exact h
   · rw [h2]; exact hb
+
+/-- `omega_block_noop` (fix f0abfd5): a no-op update of a BLOCK record returns the record unchanged, token for
+    token — for every record (any nodes, `(v)xn`, options, comments), on every scale: all that is used of the
+    scale conversion is that the reader and the writer apply the *same* function, so that equal parameters give
+    equal record-scale values (`olds = news.map raw`); the fixedness is the one the record has. -/
+theorem omega_block_noop (r : List DNode) (ws : List String) (news : List OParam) (f : Bool)
+    (h : blockFix r = .ok f) (hws : ws.length = (writtenVals r).length)
+    (hlen : news.length = (writtenVals r).length) :
+    updBlock r ws news (news.map (·.raw)) f = .ok r := by
+  have harr : (blockArray r ws news (news.map (·.raw))).map (·.raw) = writtenVals r := by
+    unfold blockArray
+    simp only [List.length_map, ↓reduceIte]
+    exact mergeKept_same _ ws news hws hlen
+  simp [updBlock, h, updBlockVals_written r _ harr, setBlockFix]
 
 /-- non-vacuity, the layouts the seeded mutation needed: `BLOCK(2) 0.1 0.01 (0.2 FIX)`, unfixed, and
     `BLOCK(2) 0.1 0.01 0.2`, fixed -/
@@ -361,11 +376,13 @@ example :
               .item [nNum .init "0.01" 1 100], .tok tokWs,
               .item [tokLpar, nNum .init "0.2" 1 5, tokWs, tokFix, tokRpar], .tok nNewline]
     let vals := [oP 1 10 "0.1" false, oP 1 100 "0.01" false, oP 1 5 "0.2" false]
-    blockFix r = .ok true ∧ hasBlock r = true ∧ noSplitB r vals = true ∧
-      updBlock r vals false = .ok [DNode.tok tokWs, .tok nBlock, .tok tokWs, .item [nNum .init "0.1" 1 10], .tok tokWs,
+    let ws := ["0.1", "0.01", "0.2"]
+    let olds := vals.map (·.raw)
+    blockFix r = .ok true ∧ hasBlock r = true ∧ noSplitB r (blockArray r ws vals olds) = true ∧
+      updBlock r ws vals olds false = .ok [DNode.tok tokWs, .tok nBlock, .tok tokWs, .item [nNum .init "0.1" 1 10], .tok tokWs,
               .item [nNum .init "0.01" 1 100], .tok tokWs,
               .item [tokLpar, nNum .init "0.2" 1 5, tokRpar], .tok nNewline] ∧
-      (updBlock r vals true).map blockFix = .ok (.ok true) := by
+      (updBlock r ws vals olds true).map blockFix = .ok (.ok true) := by
   decide
 
 /-! ### `$OMEGA` / `$SIGMA BLOCK(n)`: scale conversions (every block size, entry by entry) -/
